@@ -2,6 +2,7 @@ package main
 
 import (
 	"fmt"
+	"regexp"
 	"go/token"
 	"go/types"
 	"os"
@@ -118,7 +119,10 @@ func (r *results) addViolation(v Violation) {
 	hr.Violations[v.Key] = v
 }
 
+var reOpaqueID = regexp.MustCompile(`#[0-9]+`)
+
 func (r *results) addInconclusive(h, msg string) {
+	msg = reOpaqueID.ReplaceAllString(msg, "#N")
 	r.mu.Lock()
 	defer r.mu.Unlock()
 	hr := r.h(h)
@@ -127,7 +131,7 @@ func (r *results) addInconclusive(h, msg string) {
 			return
 		}
 	}
-	if len(hr.Inconclusive) < 50 {
+	if len(hr.Inconclusive) < 12 {
 		hr.Inconclusive = append(hr.Inconclusive, msg)
 	}
 }
@@ -386,6 +390,7 @@ func exploreHarness(p *program, res *results, cfg *harnessCfg, nworkers int, wor
 				mu.Unlock()
 
 				alts := i.runPath(fn, pre)
+				i.solver.MaybeRestart()
 
 				mu.Lock()
 				if !truncated {
